@@ -889,6 +889,8 @@ fn sx_stmts(stmts: &[syn::Stmt]) -> String {
                     o.push_str(&format!("(tail {})", e));
                 }
             }
+            // a `use` inside a body only brings names into scope
+            syn::Stmt::Item(syn::Item::Use(u)) => o.push_str(&format!("(use {})", q(&ts(&u.tree)))),
             syn::Stmt::Item(i) => o.push_str(&format!("(unsupported {})", q(&format!("item {}", ts(i))))),
         }
     }
@@ -941,6 +943,8 @@ fn sx_macro(m: &syn::Macro) -> String {
         "vec" if m.tokens.is_empty() => "(array)".into(),
         // a code template: its tokens as text (the translator makes it a symbolic value holding the holes' values)
         "quote" | "parse_quote" => format!("(quote {})", q(&m.tokens.to_string())),
+        // a diagnostic of the macro: recorded, not modelled as control flow (proc-macro-error collects it)
+        "emit_error" | "emit_warning" => format!("(diag {})", q(&name)),
         "format" => {
             // (format "<template>" args..): the template and the argument expressions
             struct FmtArgs(syn::LitStr, Vec<syn::Expr>);
@@ -1059,6 +1063,11 @@ fn sx_expr(e: &syn::Expr) -> String {
             }
         }
         syn::Expr::Try(t) => format!("(try {})", sx_expr(&t.expr)),
+        // `lo..` / `lo..hi`
+        syn::Expr::Range(r) if matches!(r.limits, syn::RangeLimits::HalfOpen(_)) && r.start.is_some() => match &r.end {
+            Some(hi) => format!("(range {} {})", sx_expr(r.start.as_ref().unwrap()), sx_expr(hi)),
+            None => format!("(range {})", sx_expr(r.start.as_ref().unwrap())),
+        },
         syn::Expr::Closure(c) if c.capture.is_none() && c.asyncness.is_none() => {
             let mut o = String::from("(closure (cparams");
             for i in &c.inputs {
